@@ -67,6 +67,7 @@ func (w *WalletManager) constructTxIn(inputs []*TxIn, lockTime uint64) (*wire.Ms
 	mtx := &wire.MsgTx{}
 	totalValue := massutil.ZeroAmount()
 	senders := make([]utils.PkScript, 0, len(inputs))
+	added := make(map[wire.OutPoint]struct{}, len(inputs))
 	for _, input := range inputs {
 		txHash, err := wire.NewHashFromStr(input.TxId)
 		if err != nil {
@@ -75,6 +76,11 @@ func (w *WalletManager) constructTxIn(inputs []*TxIn, lockTime uint64) (*wire.Ms
 		}
 
 		prevOut := wire.NewOutPoint(txHash, input.Vout)
+		if _, ok := added[*prevOut]; ok {
+			logging.CPrint(logging.ERROR, "duplicate input", logging.LogFormat{"txid": input.TxId, "vout": input.Vout})
+			return nil, nil, massutil.ZeroAmount(), ErrInvalidParameter
+		}
+		added[*prevOut] = struct{}{}
 		txIn := wire.NewTxIn(prevOut, nil)
 		if lockTime != 0 {
 			txIn.Sequence = wire.MaxTxInSequenceNum - 1 // sequence lock disabled
